@@ -308,7 +308,14 @@ def outsideModel (c : Case) : Bool :=
   let rxOpOut := !rxArgs.isEmpty &&
     (rxArgs.any (fun p => (Regex.parse {} (Bytes.ofString "(?sm)" ++ p)).isNone) ||
      nonAscii c.get || nonAscii c.post || nonAscii c.hdr || decoded)
-  (caseTf && (nonAscii c.get || nonAscii c.post || nonAscii c.hdr || decoded)) || rxOut || rxOpOut
+  -- a TX key built by macro expansion is lower-cased by the collection with strings.ToLower, which rewrites
+  -- bytes that are not UTF-8: outside the fragment when request data that is not ASCII can reach a key
+  let macroKey := c.rules.any fun r => r.links.any fun l => l.nacts.any fun a =>
+    match a with
+    | .setvar key _ => key.any (fun t => match t with | .var _ _ _ => true | .text _ => false)
+    | _ => false
+  let macroOut := macroKey && (nonAscii c.get || nonAscii c.post || nonAscii c.hdr || decoded)
+  (caseTf && (nonAscii c.get || nonAscii c.post || nonAscii c.hdr || decoded)) || rxOut || rxOpOut || macroOut
 
 def modelIn (rxm : RxMode) (args : List String) : Option String :=
   match args with
